@@ -197,6 +197,17 @@ def call_ext(I, e, s, name, args, kwargs):
         if name.endswith("json.loads") or name.endswith("json.load"):
             return ANY
         return AV(["str"])
+    if name.startswith("operator.") and name.split(".")[-1] in ("lt", "le", "gt", "ge", "<ordering>", "eq", "ne"):
+        # the function form of a comparison: same demands on the operands as the operator
+        if name.split(".")[-1] not in ("eq", "ne") and len(args) == 2:
+            left, right = args
+            num = frozenset(["int", "float", "bool", "obj:Fraction"])
+            ok = (left.kinds <= num and right.kinds <= num) or (left.kinds <= frozenset(["str"]) and right.kinds <= frozenset(["str"])) \
+                or (left.kinds <= frozenset(["tuple"]) and right.kinds <= frozenset(["tuple"])) \
+                or (left.kinds <= frozenset(["opaque"]) and right.kinds <= frozenset(["opaque"]))
+            I.need(ok, "TypeError", e, "ordering comparison between values that may not be comparable: %s" % norm(e)[:50], "%s vs %s" % (left.describe(), right.describe()))
+        I.need(len(args) == 2 and not kwargs, "TypeError", e, "%s takes two operands" % name)
+        return AV(["bool"])
     if name.startswith("math."):
         fn = name.split(".")[-1]
         numk = frozenset(["int", "float", "bool"])
@@ -475,7 +486,10 @@ def obj_method(I, e, s, t, recv, attr, args, kwargs, is_cls=False):
             return I.call_func(m, args, kwargs, node=e)
         if "classmethod" in decos:
             return I.call_func(m, [AV(["cls:" + t])] + args, kwargs, node=e)
-        ret = I.call_func(m, [recv if not is_cls else AV(["cls:" + t])] + args, kwargs, node=e)
+        if is_cls:
+            # Class.method(obj, ...): a plain function taken from the class; the first argument is the receiver
+            return I.call_func(m, args, kwargs, node=e)
+        ret = I.call_func(m, [recv] + args, kwargs, node=e)
         return ret
     if t in I.calls.type_cls:
         a = I.obj_attr(t, attr, recv, e, s)
